@@ -18,6 +18,7 @@ var props = map[string]func(*check.Ctx) int{
 	"C05": check.C05,
 	"C06": check.C06,
 	"C12": check.C12,
+	"C14": check.C14,
 }
 
 func dispatch(cmd string, args []string) bool {
